@@ -216,6 +216,7 @@ type unitResult struct {
 	funcs     int
 	err       error
 	nCases    int
+	skipped   []string // cases not run because their generated package does not type-check (inconclusive)
 }
 
 func runCheck(id string, o runOpts) int {
@@ -371,36 +372,49 @@ func runUnit(id, hdir, scratch string, u UnitSpec, o runOpts, listed map[string]
 		compileOnlyUnit(id, scratch, &u, res, listed)
 		return res
 	}
-	ov, ovPaths, err := overlayFor(hdir, scratch, u, "", false)
-	if err != nil {
-		res.err = err
-		return res
-	}
-	for k, v := range u.genOverlay() {
-		b, err := os.ReadFile(v)
+	var pkgs []*packages.Package
+	for attempt := 0; ; attempt++ {
+		ov, ovPaths, err := overlayFor(hdir, scratch, u, "", false)
 		if err != nil {
 			res.err = err
 			return res
 		}
-		ov[k] = b
-		ovPaths[k] = v
-	}
-	cfg := &packages.Config{Mode: packages.LoadAllSyntax, Dir: repoDir, Overlay: ov, Env: goEnv()}
-	pkgs, err := packages.Load(cfg, u.Pkg)
-	if err != nil {
-		res.err = err
-		return res
-	}
-	nerr := 0
-	packages.Visit(pkgs, nil, func(p *packages.Package) {
-		for _, e := range p.Errors {
-			if nerr < 10 {
-				fmt.Fprintf(os.Stderr, "load error: %s: %v\n", p.PkgPath, e)
+		for k, v := range u.genOverlay() {
+			b, err := os.ReadFile(v)
+			if err != nil {
+				res.err = err
+				return res
 			}
-			nerr++
+			ov[k] = b
+			ovPaths[k] = v
 		}
-	})
-	if nerr > 0 || len(pkgs) == 0 {
+		cfg := &packages.Config{Mode: packages.LoadAllSyntax, Dir: repoDir, Overlay: ov, Env: goEnv()}
+		pkgs, err = packages.Load(cfg, u.Pkg)
+		if err != nil {
+			res.err = err
+			return res
+		}
+		nerr := 0
+		bad := map[string]string{}
+		packages.Visit(pkgs, nil, func(p *packages.Package) {
+			for _, e := range p.Errors {
+				if nerr < 10 {
+					fmt.Fprintf(os.Stderr, "load error: %s: %v\n", p.PkgPath, e)
+				}
+				if _, ok := bad[p.PkgPath]; !ok {
+					bad[p.PkgPath] = e.Error()
+				}
+				nerr++
+			}
+		})
+		if nerr == 0 && len(pkgs) > 0 {
+			break
+		}
+		// a generated package the generator accepted does not type-check: drop it (its cases are inconclusive)
+		// and check the remaining packages of the unit
+		if st, ok := genStates[u.Name]; ok && attempt == 0 && st.dropBroken(&u, bad) {
+			continue
+		}
 		res.err = fmt.Errorf("package %s does not load/type-check (%d errors)", u.Pkg, nerr)
 		return res
 	}
@@ -470,6 +484,12 @@ func runUnit(id, hdir, scratch string, u UnitSpec, o runOpts, listed map[string]
 		name := fmt.Sprintf("%s/%s%v", u.Name, entry, args)
 		if o.caseSub != "" && !strings.Contains(name, o.caseSub) {
 			continue
+		}
+		if st, ok := genStates[u.Name]; ok && len(args) > 0 {
+			if why, broken := st.broken[args[0]]; broken {
+				res.skipped = append(res.skipped, name+": not run: generated package accepted by the generator does not type-check ("+why+")")
+				continue
+			}
 		}
 		jobs = append(jobs, job{name, fn, args})
 	}
